@@ -81,7 +81,17 @@ def run(formula, arr=None, mode='literal'):
         p.on('callRangeValue', lambda s, e, done: done(arr))
         f = formula.replace('@', 'A1:C3')
     r = p.parse(f)
-    return f, (r['result'] if r['error'] is None else ('ERR', r['error']))
+    res = r['result'] if r['error'] is None else ('ERR', r['error'])
+    # the same call written with the other two argument separators (the array keeps its own spelling)
+    if '"' not in formula and "'" not in formula:
+        for sep in (';', '\\'):
+            alt = formula.replace(',', sep)
+            f2 = alt.replace('@', lit(arr) if mode == 'literal' else ('arr' if mode == 'variable' else 'A1:C3'))
+            r2 = p.parse(f2)
+            res2 = r2['result'] if r2['error'] is None else ('ERR', r2['error'])
+            if canon_py(res2 if not is_err(res2) else list(res2)) != canon_py(res if not is_err(res) else list(res)):
+                return f2, ('ERR', 'written with %r as separator this gives %r, with commas %r' % (sep, res2, res))
+    return f, res
 
 
 def is_err(v):
